@@ -14,7 +14,7 @@ use std::sync::{Mutex, OnceLock};
 
 pub struct C15;
 
-pub const PROGRAMS: [(&str, &str); 12] = [
+pub const PROGRAMS: [(&str, &str); 15] = [
     ("counter", "fn cnt(p) {\n  self + p\n}\nfn dsp(x) {\n  cnt(x) + cnt(1.0)\n}\n"),
     ("closures", "fn mk(n) {\n  |y| y + n\n}\nfn dsp(x) {\n  let a = mk(1.0)\n  let b = |q| q * 2.0\n  let c = | | 3.0\n  a(x) + b(x) + c()\n}\n"),
     ("enum", "type Dir = Up | Down | Left(float)\nfn f(d: Dir) {\n  match d {\n    Up => 1.0,\n    Down => 2.0,\n    Left(v) => v\n  }\n}\nfn dsp(x) {\n  f(Up) + f(Down) + f(Left(x))\n}\n"),
@@ -26,6 +26,10 @@ pub const PROGRAMS: [(&str, &str); 12] = [
     ("scheduler", "let c0 = 0.0\nfn task0() {\n  c0 = c0 + 1.0\n  task0@(now + 2.0)\n}\ntask0@1.0\nfn dsp(x) {\n  c0 + x\n}\n"),
     ("record_fields_in_reverse_order", "fn dsp(x) {\n  let r = {zeta = 1.0, omega = x, alpha = 2.0}\n  r.zeta + r.alpha * 10.0 + r.omega * 100.0\n}\n"),
     ("record_update_two_stateful_fields", "fn cnt(p) {\n  self + p\n}\nfn dsp(x) {\n  let r = {alpha = 0.0, omega = 0.0, zeta = 0.0}\n  let r2 = {r <- zeta = delay(4.0, cnt(1.0), 2.0), alpha = cnt(10.0), omega = mem(x)}\n  r2.alpha + r2.zeta * 100.0 + r2.omega * 10000.0\n}\n"),
+    // the same short names bound to different things in different programs (anything remembered by name across compilations shows here)
+    ("alias_in_module_left", "mod left {\n  pub type alias Pair = (float, float)\n  pub fn mk(x: float) -> Pair {\n    (x, x + 1.0)\n  }\n}\nfn dsp(x) {\n  let (a, b) = left::mk(x)\n  a + b\n}\n"),
+    ("alias_in_module_right", "mod right {\n  pub type alias Pair = (float, float, float)\n  pub fn total(p: Pair) -> float {\n    p.0 + p.1 + p.2\n  }\n}\nfn dsp(x) {\n  right::total((x, 2.0, 3.0))\n}\n"),
+    ("enum_same_names_other_order", "type Dir = Left(float) | Down | Up\nfn f(d: Dir) {\n  match d {\n    Up => 10.0,\n    Down => 20.0,\n    Left(v) => v * 2.0\n  }\n}\nfn dsp(x) {\n  f(Up) + f(Down) + f(Left(x))\n}\n"),
     ("tuples_if", "fn sw(t:(float,float)) {\n  (t.1, t.0)\n}\nfn dsp(x) {\n  let t = if (x) { (1.0, x) } else { (x, 2.0) }\n  let (p, q) = sw(t)\n  (p, q, now)\n}\n"),
 ];
 
@@ -211,7 +215,7 @@ impl Prop for C15 {
         let (d, r) = params(tier);
         Descr {
             rule: format!(
-                "{} programs exercising every table the compiler keys by name or hash (stateful functions, closures and lambda labels, enums and constructors, records and aliases, modules / use / re-export / wildcard, macros and lifted numbers, many functions and math imports, boxed recursive types, scheduler, tuples and multi-word if); every history of 1..={d} compilations is run inside a worker process (on top of whatever that worker compiled before) and the observation of the last one — hash of the bytecode listing, of the WASM bytes, the dsp state layout, VM and WASM outputs of 6 samples — is compared with a second compilation right after it and with the observation from {r} fresh processes (which must agree among themselves). The HashMap seeds are owned by the harness (getrandom interposed): fresh process k runs under hash-seed index k = 1..{r}, and the history of case i runs on a new thread under index 1 + i mod {}, so the explored set of seeds is stated and every case replays exactly. states = histories; non-trivial = every case.",
+                "{} programs exercising every table the compiler keys by name or hash, three of them re-using the short names of others with another meaning (a type alias of the same name in another module, the same constructors in another order) (stateful functions, closures and lambda labels, enums and constructors, records and aliases, modules / use / re-export / wildcard, macros and lifted numbers, many functions and math imports, boxed recursive types, scheduler, tuples and multi-word if); every history of 1..={d} compilations is run inside a worker process (on top of whatever that worker compiled before) and the observation of the last one — hash of the bytecode listing, of the WASM bytes, the dsp state layout, VM and WASM outputs of 6 samples — is compared with a second compilation right after it and with the observation from {r} fresh processes (which must agree among themselves). The HashMap seeds are owned by the harness (getrandom interposed): fresh process k runs under hash-seed index k = 1..{r}, and the history of case i runs on a new thread under index 1 + i mod {}, so the explored set of seeds is stated and every case replays exactly. states = histories; non-trivial = every case.",
                 PROGRAMS.len(),
                 n_seeds(tier)
             ),
